@@ -666,7 +666,8 @@ SMTLIB2_LOGICS = frozenset([AUFLIA,
                             QF_SLIA
                             ])
 
-LOGICS = SMTLIB2_LOGICS | frozenset([QF_BOOL, BOOL, QF_AUFBVLIRA, QF_NIRA])
+LOGICS = SMTLIB2_LOGICS | frozenset([QF_BOOL, BOOL, QF_AUFBVLIRA, QF_NIRA,
+                                     QF_LIRA, BV, UFBV])
 
 QF_LOGICS = frozenset(_l for _l in LOGICS if _l.quantifier_free)
 
